@@ -812,8 +812,11 @@ func genFail(r *vlib.R, emit func(string)) {
 
 // genAns: the answer caches (PositiveCache / NegativeCache): live and already
 // expired entries stored over each other, looked up, removed.
-func genAns(r *vlib.R, emit func(string)) {
-	emit(fmt.Sprintf("ans new %s %d", vlib.Pick(r, []string{"pos", "neg"}), 64))
+func genAns(r *vlib.R, kind string, emit func(string)) {
+	if kind == "" {
+		kind = vlib.Pick(r, []string{"pos", "neg"})
+	}
+	emit(fmt.Sprintf("ans new %s %d", kind, 64))
 	keys := []uint64{0, 1, 2, r.U64(), r.U64(), hugeB}
 	tok := uint64(2)
 	nops := r.Range(15, 50)
@@ -1143,8 +1146,8 @@ func gen(r *vlib.R, n int, tier string, emit0 func(string)) {
 	genStall(r, tier, emit)
 	genSparse(r, emit)
 	genSparse(r, emit)
-	genAns(r, emit)
-	genAns(r, emit)
+	genAns(r, "pos", emit)
+	genAns(r, "neg", emit)
 	genFail(r, emit)
 	genFail(r, emit)
 	genRing(r, emit)
@@ -1168,7 +1171,7 @@ func gen(r *vlib.R, n int, tier string, emit0 func(string)) {
 			genSparse(r, emit)
 		case x >= 94 && x < 95:
 			if r.Bool() {
-				genAns(r, emit)
+				genAns(r, "", emit)
 			} else {
 				genFail(r, emit)
 			}
